@@ -17,4 +17,26 @@ MUTANTS = [
  dict(id='C03-first-trigger-only', file='src/deep/processor/trigger_handler.py', old='                actions += trigger.actions\n', new='                actions += trigger.actions\n                break\n', props=['C03']),
  dict(id='C03-merge-overwrite', file='src/deep/grpc/__init__.py', old='all_triggers[location_id].merge_actions(trigger.actions)', new='all_triggers[location_id] = trigger', props=['C03', 'C11']),
  dict(id='C03-func-on-return', file='src/deep/api/tracepoint/trigger.py', old='if event == "call" and function_name == self.__function_name:', new='if event in ("call", "return") and function_name == self.__function_name:', props=['C03']),
+ dict(id='C02-swap-short', file='src/deep/processor/frame_collector.py', old='return StackFrame(filename, short_path, func_name,', new='return StackFrame(short_path, filename, func_name,', props=['C02']),
+ dict(id='C02-lineno-back', file='src/deep/processor/frame_collector.py', old='        lineno = frame.f_lineno\n', new='        lineno = frame.f_back.f_lineno if frame.f_back is not None and frame is self._FrameCollector__frame else frame.f_lineno\n', props=['C02']),
+ dict(id='C02-collect-idx1', file='src/deep/processor/context/snapshot_action.py', old='        return current_frame_index == 0', new='        return current_frame_index <= 1', props=['C02']),
+ dict(id='C02-list-str', file='src/deep/processor/variable_processor.py', old="        return 'Size: %s' % len(var_value)", new="        return str(var_value)", props=['C02', 'C05']),
+ dict(id='C02-drop-last-local', file='src/deep/processor/frame_collector.py', old='                var_ids = variable_val.children\n', new='                var_ids = variable_val.children[:-1] if len(variable_val.children) > 3 else variable_val.children\n', props=['C02', 'C06']),
+ dict(id='C02-class-from-cls', file='src/deep/processor/frame_collector.py', old="        _self = f_locals.get('self', None)", new="        _self = f_locals.get('self', f_locals.get('n', None))", props=['C02']),
+ dict(id='C02-watch-other-frame', file='src/deep/processor/context/trigger_context.py', old='return eval(expression, None, self.__frame.f_locals)', new='return eval(expression, None, (self.__frame.f_back or self.__frame).f_locals if expression == "n" else self.__frame.f_locals)', props=['C02', 'C10']),
+ dict(id='C02-exclude-after-include', file='src/deep/config/config_service.py', old='''        for path in in_app_exclude:
+            if filename.startswith(path):
+                return False, path
+
+        for path in in_app_include:
+            if filename.startswith(path):
+                return True, path
+''', new='''        for path in in_app_include:
+            if filename.startswith(path):
+                return True, path
+
+        for path in in_app_exclude:
+            if filename.startswith(path):
+                return False, path
+''', props=['C02', 'C19']),
 ]
